@@ -74,6 +74,27 @@ func runC17(s *Sim) {
 	}
 	s.SampleText = fmt.Sprintf("seq=%d subject=%q points=%d packet=%d bytes", seq, subject, len(pts), len(enc))
 
+	// --- a built packet stays what it is while further packets are built (send queues, retries, batches) ---
+	held := append([]byte(nil), enc...)
+	for _, other := range []struct {
+		seq  byte
+		subj string
+		pts  data.Points
+	}{
+		{seq + 200, subject, pts}, // same size, other content
+		{seq + 1, "p.zz", append(append(data.Points(nil), pts...), data.Point{Type: "value", Value: 7, Text: "filler"})}, // longer
+		{seq + 2, "", nil}, // shorter
+	} {
+		if _, err := client.SerialEncode(other.seq, other.subj, other.pts); err != nil {
+			continue
+		}
+		if !bytes.Equal(enc, held) {
+			s.Fail("C17", "roundtrip", "the bytes of an already built packet (seq=%d subject=%q, %d bytes) changed when the next packet (seq=%d subject=%q) was built: a packet held for sending or retry no longer decodes to what it was built from",
+				seq, subject, len(held), other.seq, other.subj)
+			return
+		}
+	}
+
 	// --- undamaged: exact round trip ---
 	gs, gsub, payload, err := client.SerialDecode(enc)
 	if err != nil || gs != seq || gsub != subject {
